@@ -8,7 +8,7 @@ CONSTANTS
   Textures = {"random", "single", "clustered", "girdle"}
   Flows = {"zero", "ss_xz", "ss_yx", "pure_xy", "axi_c", "gen3d", "trace"}
   Pars <- C07Pars
-  Callbacks = {0, 7, 4, 3, 9}
+  Callbacks = {0, 7, 4, 3, 9, 102, 105, 108}
   MaxUpd = 6
   MaxOps = 8
 INVARIANT EmitAtEnd
